@@ -398,6 +398,10 @@ void sim_set_lib_fill(int fill, uint64_t seed) {
   g_lib_fill = fill;
   g_lib_fill_seed = seed;
 }
+void sim_get_lib_fill(int* fill, uint64_t* seed) {
+  *fill = g_lib_fill;
+  *seed = g_lib_fill_seed;
+}
 uint64_t sim_lib_alloc_mark(void) { return g_lib_seq; }
 uint64_t sim_lib_alloc_count(void) { return g_lib_seq; }
 uint64_t sim_lib_alloc_bytes(void) { return g_lib_bytes; }
